@@ -37,6 +37,18 @@ from .contexts import AsyncContext
 from .decorators import AsyncDecorator, AsyncDecoratorBinder, async_call, asynq
 
 
+def _args_key(args, kwargs, arg_names, kwonly_names, kwargs_defaults):
+    """Normalizes the arguments of a call into a hashable cache key.
+
+    Like qcore's get_args_tuple, but positional arguments beyond arg_names (they go to the
+    function's *varargs) are never matched against the keyword-only parameters.
+
+    """
+    if len(args) > len(arg_names):
+        return tuple(args) + get_args_tuple((), kwargs, kwonly_names, kwargs_defaults)
+    return get_args_tuple(args, kwargs, arg_names + kwonly_names, kwargs_defaults)
+
+
 @asynq()
 def amap(function, sequence):
     """Equivalent of map() that takes an async map function.
@@ -176,13 +188,15 @@ def acached_per_instance():
 
     def cache_fun(fun):
         argspec = inspect.getfullargspec(get_original_fn(fun))
-        arg_names = argspec.args[1:] + argspec.kwonlyargs  # remove self
+        arg_names = argspec.args[1:]  # remove self
         async_fun = fun.asynq
         kwargs_defaults = get_kwargs_defaults(argspec)
         cache = {}
 
         def cache_key(args, kwargs):
-            return get_args_tuple(args, kwargs, arg_names, kwargs_defaults)
+            return _args_key(
+                args, kwargs, arg_names, argspec.kwonlyargs, kwargs_defaults
+            )
 
         def clear_cache(instance_key, ref):
             del cache[instance_key]
@@ -228,7 +242,7 @@ def alru_cache(maxsize=128, key_fn=None):
     def decorator(fn):
         cache = LRUCache(maxsize)
         argspec = inspect.getfullargspec(get_original_fn(fn))
-        arg_names = argspec.args + argspec.kwonlyargs
+        arg_names = argspec.args
         async_fun = fn.asynq
         kwargs_defaults = get_kwargs_defaults(argspec)
 
@@ -236,7 +250,9 @@ def alru_cache(maxsize=128, key_fn=None):
         if cache_key is None:
 
             def cache_key(args, kwargs):
-                return get_args_tuple(args, kwargs, arg_names, kwargs_defaults)
+                return _args_key(
+                    args, kwargs, arg_names, argspec.kwonlyargs, kwargs_defaults
+                )
 
         @asynq()
         @functools.wraps(fn)
@@ -419,10 +435,10 @@ def deduplicate(keygetter=None):
         if _keygetter is None:
             original_fn = get_original_fn(fun)
             argspec = inspect.getfullargspec(original_fn)
-            arg_names = argspec.args + argspec.kwonlyargs
+            arg_names = argspec.args
             kwargs_defaults = get_kwargs_defaults(argspec)
-            _keygetter = lambda args, kwargs: get_args_tuple(
-                args, kwargs, arg_names, kwargs_defaults
+            _keygetter = lambda args, kwargs: _args_key(
+                args, kwargs, arg_names, argspec.kwonlyargs, kwargs_defaults
             )
 
         return decorate(DeduplicateDecorator, fun.task_cls, _keygetter)(fun)
